@@ -362,7 +362,8 @@ def matcher(P, R):
                     if isinstance(x, dict) and any(isinstance(y, dict) and y.get('k') == 'callref' and y.get('callee') in ('fnmatch', 'irc_check_mask', 'iauth_xreply_ok', 'strcmp', 'strcasecmp') for y in walk(x)):
                         return True
                     mem_ = {y.get('field') for y in walk(x) if isinstance(y, dict) and y.get('k') == 'mem' and y.get('rec') == RULE_REC}
-                    return bool(mem_) and mem_ <= crit_fields
+                    # criterion members, and what the loader noted about a criterion (address_invalid, ...)
+                    return bool(mem_) and all(fd in crit_fields or str(fd).split('_')[0] in stems for fd in mem_)
 
                 def folded_ok(name, depth=0):
                     if depth > 4:
